@@ -14,3 +14,26 @@ def mut(name, what, expect, *edits, outdir=None):
     p = os.path.join(outdir or os.path.join(V, "mutants"), name + ".patch")
     open(p, "w").write("".join(out))
     return p
+
+
+def revert_mut(name, what, expect, fixdiff, outdir=None):
+    """mutant = the reverse of a committed fix (the original defect comes back)"""
+    import subprocess, tempfile, shutil, re
+    d = tempfile.mkdtemp()
+    try:
+        files = sorted(set(re.findall(r"^\+\+\+ b/(\S+)", open(fixdiff).read(), re.M)))
+        for f in files:
+            os.makedirs(os.path.dirname(os.path.join(d, f)), exist_ok=True)
+            shutil.copy(os.path.join("/repo", f), os.path.join(d, f))
+        r = subprocess.run(["patch", "-R", "-p1", "-s", "--no-backup-if-mismatch", "-i", fixdiff], cwd=d, capture_output=True, text=True)
+        assert r.returncode == 0, r.stdout + r.stderr
+        out = [f"# what: {what}\n"] + [f"# expect: {e}\n" for e in expect]
+        for f in files:
+            src = open(os.path.join("/repo", f)).read()
+            dst = open(os.path.join(d, f)).read()
+            out += list(difflib.unified_diff(src.splitlines(True), dst.splitlines(True), "a/" + f, "b/" + f))
+        p = os.path.join(outdir or os.path.join(V, "mutants"), name + ".patch")
+        open(p, "w").write("".join(out))
+        return p
+    finally:
+        shutil.rmtree(d)
